@@ -702,9 +702,19 @@ def check_property(prop, tier, groups, propmeta, seed=0):
             return witness_search(r['group'], prop, vi)
         except Exception as e:  # replay is best effort, never masks the violation
             return {'witness': None, 'note': 'witness search crashed: %r' % e}
+    def unw_only(item):
+        (r, vi) = item
+        return r['group']['mode'] == 'contracts' and all(o['desc'].startswith('unwinding assertion') for o in vi)
+    # groups whose only failure is a loop without a contract are decided by the native search (6.9): search all of them (max 12)
+    viol.sort(key=lambda it: 1 if unw_only(it) else 0)
+    n_sem = len([it for it in viol if not unw_only(it)])
+    nsearch = min(len(viol), min(n_sem, LIMIT) + min(len(viol) - n_sem, 12)) if n_sem <= LIMIT else LIMIT
+    order = viol[:min(n_sem, LIMIT)] + viol[n_sem:n_sem + 12] if n_sem <= LIMIT else viol[:LIMIT]
+    rest = [it for it in viol if it not in order]
+    viol = order + rest
     with ThreadPoolExecutor(max_workers=4) as ex:
-        wss = list(ex.map(do_ws, viol[:LIMIT]))
-    wss += [{'witness': None, 'note': 'witness search skipped: more than %d groups failed in this run' % LIMIT}] * max(0, len(viol) - LIMIT)
+        wss = list(ex.map(do_ws, order))
+    wss += [{'witness': None, 'note': 'witness search skipped: more than %d groups failed in this run' % LIMIT}] * len(rest)
     for (r, vi), ws in zip(viol, wss):
         g = r['group']
         rdir = os.path.join(OUT_ROOT, 'replays', prop)
